@@ -57,6 +57,7 @@ requested binning; the cache before the measured build is compared with the mode
 catalog used WITHOUT binning has a history of its own (it served as a binned sample before) and must report the patch total in
 every bin.  Redshifts are drawn from the edges / midpoints / outside values of the requested binning and of the binnings of
 the history, i.e. where the binnings of one history disagree.
+
 Extreme but legal sizes of the binning ('large' family): 1, 2, 3 bins, bin counts around 2^7, 2^8, 2^15 and 2^16 (the widths of the
 integer types a bin index fits into), thousands and up to 10^5 bins; custom edge arrays and generated ones (zmin / zmax / num_bins,
 linear); very narrow bins (2^-20) next to very wide ones (several units); objects in the first and the LAST bins, in the bins whose
